@@ -35,7 +35,8 @@ static std::vector<Group> couplings_for(int pop, int coupling) {
     return g;
 }
 
-static std::string run_case(const Case& cs, long* steps_done = nullptr, long* free_slots = nullptr) {
+static long g_cases_with_motion = 0;
+static std::string run_case(const Case& cs, long* steps_done = nullptr, long* free_slots = nullptr) { bool any_motion = false;
     using namespace sc; std::vector<cell_ptr> cells; char buf[400];
     auto epi = [&]() { auto t = make_cell_type(0, 3); t->mass_density_ = DENS[cs.densi]; return t; }; auto stat = [&](short g) { auto t = make_cell_type(g, 1); t->mass_density_ = DENS[cs.densi]; return t; };
     switch (cs.pop) { case 0: cells = {make_cell(octahedron(), 0, epi())}; break; case 1: cells = {make_cell(octahedron(), 0, epi()), make_cell(translated(tetrahedron(), 2.5, 0, 0), 1, epi())}; break;
@@ -101,6 +102,7 @@ static std::string run_case(const Case& cs, long* steps_done = nullptr, long* fr
         // ---- the real update
         std::vector<std::vector<vec3>> before(cells.size()); for (unsigned ci = 0; ci < cells.size(); ci++) for (node& n : cells[ci]->node_lst_) before[ci].push_back(n.pos_);
         integ.update_nodes_positions(cells); if (steps_done) (*steps_done)++;
+        for (unsigned ci = 0; ci < cells.size() && !any_motion; ci++) for (unsigned ni = 0; ni < cells[ci]->node_lst_.size(); ni++) if (cells[ci]->node_lst_[ni].is_used_ && (cells[ci]->node_lst_[ni].pos_ - before[ci][ni]).norm() > 0) { any_motion = true; break; }
         if (integ.get_simulation_time() != ref_time) { snprintf(buf, sizeof buf, "time-did-not-advance-by-one-time-step: after %d steps %.17g expected %.17g", step + 1, integ.get_simulation_time(), ref_time); err = buf; break; }
         for (unsigned ci = 0; ci < cells.size() && err.empty(); ci++) { cell& c = *cells[ci]; double scale_x = 1.0, scale_p = 0; for (auto& r : ref[ci].n) if (r.live) for (int k = 0; k < 3; k++) { scale_x = std::max(scale_x, std::fabs(r.x[k])); scale_p = std::max(scale_p, std::fabs(r.p[k])); }
             for (unsigned ni = 0; ni < c.node_lst_.size() && err.empty(); ni++) { node& n = c.node_lst_[ni]; RefNode& r = ref[ci].n[ni]; if (!r.live) continue; double x[3] = {n.pos_.dx(), n.pos_.dy(), n.pos_.dz()};
@@ -118,7 +120,7 @@ static std::string run_case(const Case& cs, long* steps_done = nullptr, long* fr
         // coupled groups: identical displacement
         for (auto& g : groups) { if (!err.empty()) break; vec3 d0 = cells[g[0].first]->node_lst_[g[0].second].pos_ - before[g[0].first][g[0].second]; for (auto& mem : g) { vec3 d = cells[mem.first]->node_lst_[mem.second].pos_ - before[mem.first][mem.second]; if ((d - d0).norm() > 1e-12 * (1 + d0.norm())) { snprintf(buf, sizeof buf, "coupled-nodes-received-different-displacements: step %d", step + 1); err = buf; } } }
     }
-    for (auto& c : cells) c->clear_data();
+    for (auto& c : cells) c->clear_data(); if (any_motion && steps_done) g_cases_with_motion++;
     return err;
 }
 
@@ -130,10 +132,10 @@ static void explore(Result& R) {
         Case c{pop, fp, pp, cp, a, b, d, n, ids, sl}; std::string e = run_case(c, &steps, &free_slots); if (e == "skip") continue; cases++;
         if (!e.empty()) R.violation(clause_of(e) + "|" + (cp ? "coupled" : "uncoupled"), case_json(c) + ": " + e, "case=" + case_text(c) + "\n");
         if (cases % 1500 == 1) R.sample(case_json(c)); }
-    R["evaluations"] = steps; R["transitions"] = steps; R["states"] = cases; R["distinct_nontrivial"] = cases; R["traces_validated_against_impl"] = cases;
+    R["evaluations"] = steps; R["transitions"] = steps; R["states"] = cases; R["distinct_nontrivial"] = g_cases_with_motion; R["traces_validated_against_impl"] = cases;
     R["cells_integrated_with_free_node_slots"] = free_slots; if (!free_slots && R.violations.empty()) R.internal_error = "no cell ever carried a free node slot (vacuous)";
     R.tables["build"]["contact_model_index"] = CONTACT_MODEL_INDEX; R.tables["build"]["dynamic_model_index"] = DYNAMIC_MODEL_INDEX;
-    R.strings["rule"] = "a case = (population, force pattern, momentum pattern, mutual coupling layout, dt, damping, density, number of steps, persistent-id assignment, compact node lists / node lists with a free slot left by a real edge collapse); the real update_nodes_positions is run step by step next to an array-based implementation of the statement's law (per-node mass = density*V/live nodes; coupled group: average momentum, force and mass, common displacement); positions/momenta to 1e-12, force accumulators exactly zero, static nodes bit-identical, time = floating-point sum of the steps; repeated in each of the 3x2 (contact model, dynamic model) builds";
+    R.strings["rule"] = "distinct_nontrivial = cases (distinct tuples by construction) in which at least one node actually moved; a case = (population, force pattern, momentum pattern, mutual coupling layout, dt, damping, density, number of steps, persistent-id assignment, compact node lists / node lists with a free slot left by a real edge collapse); the real update_nodes_positions is run step by step next to an array-based implementation of the statement's law (per-node mass = density*V/live nodes; coupled group: average momentum, force and mass, common displacement); positions/momenta to 1e-12, force accumulators exactly zero, static nodes bit-identical, time = floating-point sum of the steps; repeated in each of the 3x2 (contact model, dynamic model) builds";
     R.assumptions = {"only mutual couplings between non-static (epithelial) cells, as the contact models create them", "tolerance 1e-12 relative to the largest coordinate / momentum of the cell"};
 }
 static int replay(const Replay& rp, Result& R) { Case c; std::istringstream i(rp.get("case")); i >> c.pop >> c.fpat >> c.ppat >> c.coupling >> c.dti >> c.dampi >> c.densi >> c.steps; if (!(i >> c.ids >> c.slots)) { c.ids = 0; c.slots = 0; } std::string e1 = run_case(c), e2 = run_case(c); if (e1 != e2) { printf("replay diverged\n"); return 0; } printf("%s\n%s\n", case_json(c).c_str(), e1.c_str()); if (!e1.empty()) { R.violation(clause_of(e1), e1, ""); return 1; } return 0; }
